@@ -55,6 +55,10 @@ pub fn decimal_strcmp(a: &str, b: &str) -> Option<Ordering> {
 /// * `b` - Second number string (digits only, no sign)
 /// * `b_neg` - Whether second number is negative
 pub fn decimal_strcmp_with_sign(a: &str, a_neg: bool, b: &str, b_neg: bool) -> Ordering {
+    // Zero has no sign: "-0" == "0" == "+0"
+    let a_neg = a_neg && !is_zero_magnitude(a);
+    let b_neg = b_neg && !is_zero_magnitude(b);
+
     // Different signs: negative < positive
     match (a_neg, b_neg) {
         (true, false) => return Ordering::Less,
@@ -111,6 +115,10 @@ pub fn realnum_strcmp(a: &str, b: &str) -> Option<Ordering> {
 
 /// Compare two real number strings with pre-parsed signs
 pub fn realnum_strcmp_with_sign(a: &str, a_neg: bool, b: &str, b_neg: bool) -> Ordering {
+    // Zero has no sign: "-0.0" == "0"
+    let a_neg = a_neg && !is_zero_magnitude(a);
+    let b_neg = b_neg && !is_zero_magnitude(b);
+
     // Different signs: negative < positive
     match (a_neg, b_neg) {
         (true, false) => return Ordering::Less,
@@ -164,6 +172,11 @@ fn parse_sign(s: &str) -> Option<(&str, bool)> {
         }
         _ => Some((s, false)),
     }
+}
+
+// Helper: true if the unsigned number string denotes zero ("0", "000", "0.00")
+fn is_zero_magnitude(s: &str) -> bool {
+    s.bytes().all(|c| c == b'0' || c == b'.')
 }
 
 // Helper: validate real number string (digits and at most one dot)
